@@ -44,7 +44,8 @@ fn pdu(i: usize, n: usize) -> Vec<u8> {
 }
 fn end_bytes(mode: &str) -> Vec<u8> {
     match mode {
-        "dpu" => refsrv::x224_data(&[0x21, 0x80]),
+        // `dpuhold`: after its ultimatum the server neither reads nor closes for 2.6 s (it leaves the closing to the client)
+        "dpu" | "dpuhold" => refsrv::x224_data(&[0x21, 0x80]),
         "bad" => refsrv::x224_data(&[0x7c, 0x00, 0x01]),                   // not a send-data-indication
         "badio" => refsrv::x224_data(&[0x68, 0x00]),                       // send-data-indication cut after its first field: Error::Io
         _ => vec![],
@@ -70,6 +71,7 @@ pub fn run(c: &Case) -> Outcome {
     let t_silent = 120 + t_send + 350;
     script.push(Act::Pause(350 + 150));
     if !c.endpack && !endb.is_empty() { script.push(Act::Send(endb.clone())); }
+    if c.end == "dpuhold" { script.push(Act::Pause(2600)); script.push(Act::Close); }
     match c.end.as_str() { "notify" => { script.push(Act::CloseNotify); script.push(Act::Pause(50)); script.push(Act::Close); } "close" => script.push(Act::Close), _ => {} }
     let cfg = Cfg { w: 800, h: 600, lay: 0x409, name: "rdp-rs".into(), dom: "d".into(), user: "u".into(), pw: "p".into(), hash: false, ra: false, blank: false, auto: false, nla: false, check: false };
     // act: 0 = the session is activated before the receive thread starts; 1..3 = the thread itself runs the
@@ -152,7 +154,7 @@ pub fn run_case(toks: &[&str], em: &mut Emitter) {
 pub fn generate(thorough: bool, seed: u64, part: (usize, usize), em: &mut Emitter) {
     let mut r = Rng::new(seed ^ 0xC20);
     let mut cases: Vec<Case> = vec![];
-    let ends = ["dpu", "notify", "close", "bad", "badio"];
+    let ends = ["dpu", "notify", "close", "bad", "badio", "dpuhold"];
     // every end mode x packing family
     for (ei, end) in ends.iter().enumerate() {
         for fam in 0..6 {
